@@ -738,6 +738,45 @@ func (bs *blockState) selectInstr(x *ssa.Select) {
 	e := bs.e
 	e.callOrd["select"]++
 	tup := x.Type().(*types.Tuple)
+	// `callsite select#k <key>`: an (assumed) contract over the select's outcome
+	// (index int, recvOk bool, one value per receive case)
+	if e.spec != nil {
+		if alt, ok := e.spec.CallSites[fmt.Sprintf("select#%d", e.callOrd["select"])]; ok {
+			spec := e.W.Specs.Funcs[alt]
+			if spec == nil {
+				panic(contractMismatch{"callsite select: unknown contract " + alt})
+			}
+			if spec.Trusted {
+				e.usedTrusted[spec.Header] = true
+			}
+			bs.havocModifies(spec, map[string]Val{}, x)
+			v := e.freshVal("select", tup)
+			bs.assumeG(e.typeFacts(v))
+			bs.assumeG(e.allocatedFacts(bs.st, v))
+			lo := "0"
+			if !x.Blocking {
+				lo = "(- 1)"
+			}
+			bs.assumeG(and(app("<=", lo, v.C[0]), app("<", v.C[0], fmt.Sprint(len(x.States)))))
+			if len(spec.Params) != tup.Len() {
+				panic(contractMismatch{fmt.Sprintf("select contract %s has %d params, the select yields %d values", alt, len(spec.Params), tup.Len())})
+			}
+			vars := map[string]Val{}
+			off := 0
+			for i := 0; i < tup.Len(); i++ {
+				n := len(flatten(tup.At(i).Type()))
+				vars[spec.Params[i].Name] = Val{tup.At(i).Type(), v.C[off : off+n]}
+				off += n
+			}
+			c := &Ctx{E: e, Vars: vars, St: bs.st, where: e.key + " select ensures"}
+			for _, en := range spec.Ensures {
+				bs.assumeG(c.boolT(en.Expr))
+			}
+			e.regs[x] = v
+			bs.ghostAt(fmt.Sprintf("select %d after", e.callOrd["select"]), x, map[string]Val{"index": {tInt, []string{v.C[0]}}})
+			return
+		}
+	}
 	v := e.freshVal("select", tup)
 	bs.assumeG(e.typeFacts(v))
 	bs.assumeG(e.allocatedFacts(bs.st, v))
